@@ -20,6 +20,7 @@ CONSTANTS
   ConnErrIsFatal = FALSE
   WakeSkipsAcceptAll = FALSE
   PauseKeepsRegistered = FALSE
+  RejoinPausedNoAvail = FALSE
 SPECIFICATION FairSpec
 PROPERTIES C03_Live
 CHECK_DEADLOCK FALSE
